@@ -487,6 +487,41 @@ static void replayTexts(const char* file) {
   free(buf); fclose(f);
 }
 
+// ---- replay of single records (evidence/replay/*.json): same definition and input, fresh run ------------------------
+static Bytes jarr(const string& line, const char* key) {
+  string k = string("\"") + key + "\":[";
+  size_t p = line.find(k);
+  Bytes out;
+  if (p == string::npos) return out;
+  p += k.size();
+  while (line[p] != ']') { out.push_back((uint8_t)strtol(line.c_str() + p, nullptr, 10)); while (line[p] != ',' && line[p] != ']') p++; if (line[p] == ',') p++; }
+  return out;
+}
+static void replayRecords(const char* file) {
+  FILE* f = fopen(file, "r");
+  if (!f) { perror(file); exit(2); }
+  char* buf = nullptr; size_t cap = 0; ssize_t n;
+  while ((n = getline(&buf, &cap, f)) > 0) {
+    string line(buf, (size_t)n);
+    if (line.find("\"t\"") == string::npos) continue;
+    Def* d = makeDef(jstrv(line, "t"), (int)jint(line, "l"), (int)jint(line, "d"), (int)jint(line, "v"), jint(line, "m") == 1);
+    int fmt = (int)jint(line, "f");
+    if (fmt == 9) {   // text case: rewrite as a one-text group and reuse the text replay
+      string tmp = string(file) + ".case";
+      FILE* o = fopen(tmp.c_str(), "w");
+      fprintf(o, "{\"t\":\"%s\",\"l\":%d,\"d\":%d,\"v\":%d,\"m\":%d,\"xs\":[%s]}\n", d->key.c_str(), d->len, d->div, d->vl,
+              d->master ? 1 : 0, vf::jbytes(jarr(line, "x")).c_str());
+      fclose(o);
+      replayTexts(tmp.c_str());
+      remove(tmp.c_str());
+      continue;
+    }
+    Bytes b = jarr(line, "b");
+    family(*d, fmt, "replay", [&](const PatFn& fn) { fn(b); });
+  }
+  free(buf); fclose(f);
+}
+
 int main(int argc, char** argv) {
   vf::installTerminate();
   if (argc < 5) { fprintf(stderr, "usage: %s out-prefix quick|thorough c05|c06 group [cases.ndjson]\n", argv[0]); return 2; }
@@ -507,6 +542,7 @@ int main(int argc, char** argv) {
   else if (group == "strings") groupStrings();
   else if (group == "tem") groupTem();
   else if (group == "texts" && argc > 5) replayTexts(argv[5]);
+  else if (group == "replay" && argc > 5) replayRecords(argv[5]);
   else { fprintf(stderr, "unknown group %s\n", group.c_str()); return 2; }
   g_out.close();
   printf("%ld records %d shards\n", g_out.total, g_out.shard + 1);
